@@ -34,3 +34,9 @@ for u in ur:
             a[2] = (o.status, o.detail[:300], o.path)
     for k, (n, p, bad) in sorted(agg.items()):
         print("  %-80s %d/%d %s" % (k, p, n, "" if bad is None else bad))
+    if "--times" in sys.argv:
+        tt = {}
+        for o in u.obligations:
+            tt[o.name] = tt.get(o.name, 0) + o.time_s
+        for k, v in sorted(tt.items(), key=lambda kv: -kv[1])[:8]:
+            print("  TIME %6.1fs %s" % (v, k))
